@@ -5,6 +5,7 @@ Own predicates on Go's output: the numeral reads back (Python float) to the same
 (repr), integers below 10^6 plain; string output is NFC and canonically equivalent to the source text;
 `"" + v` splices exactly what দেখাও prints.  goref: model text_num against fmt %v directly."""
 import math, unicodedata
+import os
 import core, lang
 from lang import *  # noqa
 from props.common import sub_rng, diff_runs, replay_generic, corpus_cases
@@ -151,6 +152,33 @@ def run(env, tier, seed, broken=None):
         if txt != gm.get(b) and bad < 5:
             bad += 1
             mism.append({'case': None, 'reason': 'model text_num(%d) = %r but fmt %%v = %r' % (b, txt, gm.get(b))})
-    return {'evaluations': len(cases) + len(bits), 'distinct_nontrivial': len(nontriv), 'mismatches': mism,
+    # the model's NFC (Model/Nfc.v over tables regenerated from the linked x/text) against norm.NFC itself, independent of
+    # Borno: every code point that occurs in a table on its own, every table pair, Hangul, and random strings over them
+    import re as _re
+    gen = open(os.path.join(core.COQ, 'Gen', 'GenNfc.v'), encoding='utf-8').read()
+    tabcps = sorted(set(int(x) for x in _re.findall(r'\d+', gen.split('gen_nfd')[1]) if int(x) < 0x110000 and not 0xD800 <= int(x) <= 0xDFFF))
+    marks = [c for c in tabcps if unicodedata.combining(chr(c))]
+    pool = tabcps + list(range(0x20, 0x7f)) + list(range(0x980, 0xa00)) + [0x1100, 0x1112, 0x1161, 0x1175, 0x11a8, 0x11c2, 0xac00, 0xac01, 0xd7a3, 0xac1c]
+    ntexts = [[c] for c in tabcps] + [[0x41, m] for m in marks[:400]] + [[c, 0x301, 0x323] for c in range(0x41, 0x7b)]
+    for a, b, c in _re.findall(r'\((\d+),(\d+),(\d+)\)', gen.split('gen_comp')[1]):
+        ntexts += [[int(a), int(b)], [int(a), 0x323, int(b)], [int(a), int(b), int(b)], [int(c), int(b)]]
+    for _ in range(20000 if tier == 'quick' else 400000):
+        k = rng.randint(1, 8)
+        ntexts.append([rng.choice(marks) if rng.random() < 0.45 else rng.choice(pool) for _ in range(k)])
+    if tier == 'thorough':
+        ntexts += [[c] for c in range(0x110000) if not 0xD800 <= c <= 0xDFFF]
+    gn = env.run_godump('nfc', [{'id': 'n%d' % i, 'cps': t} for i, t in enumerate(ntexts)])
+    mn = env.run_model(['nfc\tn%d\t%s' % (i, core.field(t)) for i, t in enumerate(ntexts)], need_oracle=False)
+    nbad = 0
+    changed = 0
+    for i, t in enumerate(ntexts):
+        g = gn.get('n%d' % i, {}).get('cps')
+        m = mn.get('n%d' % i, [''])[0]
+        ml = [int(x) for x in m.split(',')] if m else []
+        changed += (g != t)
+        if g != ml and nbad < 5:
+            nbad += 1
+            mism.append({'case': None, 'reason': 'NFC of %s: model %s, x/text %s' % (t, ml, g)})
+    return {'evaluations': len(cases) + len(bits) + len(ntexts), 'nfc_texts': len(ntexts), 'nfc_texts_changed_by_normalisation': changed, 'distinct_nontrivial': len(nontriv), 'mismatches': mism,
             'rule': '%d doubles (boundaries, powers of ten +-1ulp, random bit patterns, random integers and decimals) printed alone, spliced by +, and nested; bitwise results; %d strings (every Bangla code point with a decomposition in both forms, combining marks, random mixtures) alone, in an array, as a property, concatenated; nil/booleans/containers/functions; model text_num against Go fmt via goref; non-trivial = distinct outputs' % (len(doubles), len(smeta)),
             'samples': [cases[len(corpus_cases('C15')) + 60]['src'], list(smeta.values())[40]]}
